@@ -1074,7 +1074,8 @@ func genRequest(ds []decl) *rapid.Generator[request] {
 		case 3: // host only
 			path = nil
 		case 4: // other host
-			host = strings.Split(rapid.SampledFrom([]string{"h.com", "api.h.com", "x.org"}).Draw(t, "otherhost"), ".")
+			// (the last two: a declared host in another letter case - the tree compares host labels as written)
+			host = strings.Split(rapid.SampledFrom([]string{"h.com", "api.h.com", "x.org", "H.com", "API.h.com"}).Draw(t, "otherhost"), ".")
 		case 5: // another host whose name extends the declared one by a label (the first path segment moved into the host)
 			if len(path) > 0 && !strings.ContainsAny(path[0], "{}*") {
 				host, path = append(host, path[0]), path[1:]
